@@ -143,7 +143,6 @@ pub struct OrderedLocalQueue<'l, T: Debug> {
     shared: &'l OrderedWorkStealQueue<T>,
     stealing: AtomicBool,
     queue: &'l SkipMap<c_longlong, Worker<T>>,
-    len: AtomicUsize,
 }
 
 impl<T: Debug> Drop for OrderedLocalQueue<'_, T> {
@@ -174,7 +173,6 @@ impl<'l, T: Debug> OrderedLocalQueue<'l, T> {
             shared,
             stealing: AtomicBool::new(false),
             queue,
-            len: AtomicUsize::new(0),
         }
     }
 
@@ -237,7 +235,14 @@ impl<'l, T: Debug> OrderedLocalQueue<'l, T> {
 
     /// Returns the number of elements in the queue.
     pub fn local_len(&self) -> usize {
-        self.len.load(Ordering::Acquire)
+        // Count the items the workers really hold: siblings steal from them,
+        // so a separately maintained counter would go stale.
+        let mut len = 0;
+        for entry in self.queue {
+            let worker = entry.value();
+            len += worker.capacity() - worker.spare_capacity();
+        }
+        len
     }
 
     /// Returns the number of elements in the all queues.
@@ -293,10 +298,6 @@ impl<'l, T: Debug> OrderedLocalQueue<'l, T> {
             .push(item)
         {
             self.push_to_global(priority, item);
-        } else {
-            //add count
-            self.len
-                .store(self.local_len().saturating_add(1), Ordering::Release);
         }
     }
 
@@ -305,6 +306,7 @@ impl<'l, T: Debug> OrderedLocalQueue<'l, T> {
         let count = self.local_len() / 2;
         let mut done = 0;
         while done < count {
+            let mut moved = false;
             for entry in self.queue.iter().rev() {
                 if done >= count {
                     break;
@@ -312,12 +314,14 @@ impl<'l, T: Debug> OrderedLocalQueue<'l, T> {
                 if let Some(item) = entry.value().pop() {
                     self.shared.push_with_priority(*entry.key(), item);
                     done += 1;
+                    moved = true;
                 }
             }
+            if !moved {
+                // siblings have stolen the rest in the meantime
+                break;
+            }
         }
-        // refresh count
-        self.len
-            .store(self.local_len().saturating_sub(count), Ordering::Release);
         //直接放到全局队列
         self.shared.push_with_priority(priority, item);
     }
@@ -426,13 +430,6 @@ impl<'l, T: Debug> OrderedLocalQueue<'l, T> {
                             })
                             .is_ok()
                         {
-                            // refresh local len
-                            self.len.store(
-                                self.local_len().saturating_add(
-                                    into_queue.capacity() - into_queue.spare_capacity(),
-                                ),
-                                Ordering::Release,
-                            );
                             self.release_lock();
                             return self.pop_local();
                         }
@@ -449,9 +446,6 @@ impl<'l, T: Debug> OrderedLocalQueue<'l, T> {
         //从本地队列弹出元素
         for entry in self.queue {
             if let Some(val) = entry.value().pop() {
-                // Decrement the count.
-                self.len
-                    .store(self.local_len().saturating_sub(1), Ordering::Release);
                 return Some(val);
             }
         }
